@@ -426,7 +426,7 @@ func runAddress(rng *Rng, n int, st *Stats, param string) ([]string, []any) {
 					foreign = src.PubKeyHashAddrID != net.PubKeyHashAddrID
 				case kname == "p2sh":
 					foreign = src.ScriptHashAddrID != net.ScriptHashAddrID
-				case kname == "p2wpkh" || kname == "p2wsh" || kname == "p2tr":
+				case kname == "p2wpkh" || kname == "p2wsh" || kname == "p2tr" || strings.HasPrefix(kname, "witness-v") || strings.HasPrefix(kname, "wrong-checksum-flavour"):
 					foreign = src.Bech32HRPSegwit != net.Bech32HRPSegwit
 				}
 				// for the other kinds (random version bytes, malformed strings, ...) "the source network" says
